@@ -1,7 +1,12 @@
 package s0389
 
+type G3 struct {
+	F1x0x0x0 int64
+	F1x0x0x1 *uint32
+}
+
 type G2 struct {
-	F1x0x0 []int64
+	F1x0x0 []G3
 }
 
 type G1 struct {
@@ -9,6 +14,6 @@ type G1 struct {
 }
 
 type T struct {
-	F0 *int32
-	F1 G1
+	F0 int32
+	F1 []G1
 }
